@@ -54,10 +54,13 @@ Proof. exact load_order_id. Qed.
 Print Assumptions C15_load_order.
 
 (* .frac-cache: after any history of seals/loads (add), retention (remove), saves, power losses
-   that tear the unsynced file, and restarts, loading fraction n through the cache file gives the
-   Info that reading its index header gives. *)
+   that tear the unsynced file, replacement of the file by other PARSABLE content whose entries are
+   each either right or recognisably damaged (no positive index size: stripped to the name, emptied,
+   partially filled, older version), and restarts, loading fraction n through the cache file gives
+   the Info that reading its index header gives. (An entry with a positive index size and wrong
+   other numbers is taken at face value by the code: outside the hypothesis.) *)
 Theorem C15_cache_transparent :
-  forall hdr ops n,
+  forall hdr ops n, Forall (cop_benign hdr) ops ->
     new_sealed (match c_file (c_run hdr ops) with Some f => cget f n | None => None end) (hdr n) = hdr n.
 Proof. exact cache_transparent. Qed.
 Print Assumptions C15_cache_transparent.
@@ -84,6 +87,11 @@ Proof. exact nodel_bad. Qed.
 Example C15_unsorted_lone_index_v2_refuted :
   exists s, reachable v2_progs false s /\ negb (st_good true false s) = true.
 Proof. exact v2_lone_index. Qed.
+
+(* the fast path without its guard "index size > 0" uses a damaged entry (zero Info) as it is *)
+Example C15_cache_noguard_refuted :
+  exists e hdr, (forall i, e = Some i -> i_idxod i = 0%N) /\ new_sealed_noguard e hdr <> hdr /\ new_sealed e hdr = hdr.
+Proof. exact noguard_refuted. Qed.
 
 (* a sealed fraction younger than an unsealed one is listed (and so removed) before it *)
 Example C15_load_order_unordered_refuted :
@@ -119,3 +127,20 @@ Example C15_nonvacuous_cache :
   let hdr := fun n => mkinfo (N.of_nat n) 1 2 3 4 0 in
   c_file (c_run hdr [CAdd 1; CAdd 2; CSave; CRemove 1; CRestart; CAdd 2]) = Some [(2, hdr 2); (1, hdr 1)].
 Proof. reflexivity. Qed.
+
+(* the hypothesis of C15_cache_transparent is met by a history that damages the file: entry 1
+   stripped to the name (all zero), entry 2 intact *)
+Example C15_nonvacuous_cache_damage :
+  let hdr := fun n => mkinfo (N.of_nat n) 1 2 3 4 0 in
+  let ops := [CAdd 1; CAdd 2; CSave; CDamage [(1, mkinfo 0 0 0 0 0 0); (2, hdr 2)]; CRestart; CAdd 1] in
+  Forall (cop_benign hdr) ops /\ cget (c_mem (c_run hdr ops)) 1 = Some (hdr 1).
+Proof.
+  intros hdr ops. split; [|reflexivity]. unfold ops.
+  do 3 (apply Forall_cons; [exact I|]).
+  apply Forall_cons.
+  - intros m j. simpl.
+    destruct (Nat.eqb m 1) eqn:E1; [intro H; inversion H; right; reflexivity|].
+    destruct (Nat.eqb m 2) eqn:E2; [|discriminate].
+    intro H; inversion H. left. apply Nat.eqb_eq in E2. subst. reflexivity.
+  - do 2 (apply Forall_cons; [exact I|]). apply Forall_nil.
+Qed.
